@@ -252,6 +252,39 @@ fn gen_check(rep: &Report, ck: &str, c: &GenCase, exhaustive_k: bool) -> CheckRe
             }
         }
     }
+    // the blind interface's public parameter preparation: message generators followed by blind generators,
+    // for every spelling of the api_id
+    for s in [SuiteId::Sha256, SuiteId::Shake256] {
+        for sel in [&c.a, &c.b] {
+            let ab = api_bytes(sel, s);
+            let (l1, m1) = (c.n % 7 + 1, c.n % 5 + 1);
+            let got: Result<Vec<[u8; 48]>, String> = with_suite!(s, CS => {
+                zkryptium::bbsplus::blind::prepare_parameters::<CS>(None, None, l1, m1, None, ab.as_deref())
+                    .map(|(_, g)| g.values.iter().map(|p| p.to_affine().to_compressed()).collect())
+                    .map_err(|e| format!("{:?}", e))
+            });
+            rep.eval(ck, 1);
+            let got = match got {
+                Ok(g) => g,
+                Err(e) => return rep.fail(ck, "prepare-parameters:failed", format!("prepare_parameters({}, {}, {:?}) under {}: {}", l1, m1, sel, s.name(), e), cj()),
+            };
+            let blind_id: Vec<u8> = [b"BLIND_".as_ref(), ab.as_deref().unwrap_or(b"")].concat();
+            let mut want = gens_of(s, l1, &ab);
+            want.extend(gens_of(s, m1, &Some(blind_id)));
+            if got != want {
+                return rep.fail(
+                    ck,
+                    "prepare-parameters:generators-differ",
+                    format!("prepare_parameters({}, {}, api_id {:?}) under {} does not return create(L, api_id) ++ create(M, \"BLIND_\" || api_id)", l1, m1, sel, s.name()),
+                    cj(),
+                );
+            }
+            let uniq: HashSet<&[u8; 48]> = got.iter().collect();
+            if uniq.len() != got.len() {
+                return rep.fail(ck, "prepare-parameters:repeated-generator", format!("prepare_parameters({}, {}, api_id {:?}) under {} returns a repeated point", l1, m1, sel, s.name()), cj());
+            }
+        }
+    }
     rep.nontrivial(ck, c);
     rep.class(&format!("generators:n={}", if c.n <= 16 { "2..16" } else if c.n <= 64 { "17..64" } else { ">64" }));
     rep.sample(ck, json!({"gen": c}));
